@@ -653,6 +653,14 @@ def j_dhcp(n, vlen=1):
     return j_eth(0x0800, j_ip4(17, j_udp(67, 68, fixed + o + b"\xff")))
 
 
+def j_dhcp255(n):
+    """BOOTP request + n options of 255 octets each (30 codes in rotation, so values of one code concatenate, RFC 3396), END: every
+    option has an ODD length, so packOptions() appends one PAD octet to each when the message is serialised again"""
+    fixed = _S("!BBBBIHHIIII", 1, 1, 6, 0, 1, 0, 0, 0, 0, 0, 0) + MAC_A + bytes(10) + bytes(64) + bytes(128) + b"\x63\x82\x53\x63"
+    o = b"".join(bytes([224 + (i % 30), 255]) + bytes([i & 0xff]) * 255 for i in range(n))
+    return j_eth(0x0800, j_ip4(17, j_udp(68, 67, fixed + o + b"\xff")))
+
+
 def j_lldp(n):
     """the three mandatory TLVs + n optional ones of every class + End"""
     b = _S("!H", (1 << 9) | 7) + b"\x04" + MAC_A + _S("!H", (2 << 9) | 2) + b"\x02\x37" + _S("!H", (3 << 9) | 2) + _S("!H", 120)
